@@ -58,6 +58,7 @@ def cb_set(ctx, names, K, **kw):
 
 
 W = 'cs_warm'
+W0 = None     # cold thread: its first use of the crate (node allocation) is part of the body
 # NOTE: the specs cas_aba, cas3, rcu2, rcu_reuse, lin2, lin_fb_own, iso_ba and nf_lin are kept for reference but are in no
 # tier: with the current engine their extraction/queries do not finish within an hour (see DESIGN.md, Changes E).
 SPECS = {
@@ -130,6 +131,13 @@ SPECS = {
     'nf_churn': {'name': 'nf_churn', 'setup': 'nf_setup',
                  'threads': [(None, 'nf_r1_load_store_exit'), ('nf_warm', 'nf_w_store_a2'), (None, 'nf_r3_load_rec')],
                  'after': {3: 1}, 'final': 'nf_final_lin', 'covers': [13]},
+    # --- Option container: null is a value like any other (C04)
+    'opt_take2': {'name': 'opt_take2', 'setup': 'cs_setup_opt', 'threads': [(W0, 'cs_w_take_r0'), (W0, 'cs_w_take_r1')],
+                  'final': 'cs_final_opt_take2', 'covers': [13]},
+    'opt_clear': {'name': 'opt_clear', 'setup': 'cs_setup_opt', 'threads': [(W0, 'cs_w_take_r0'), (W0, 'cs_w_optswap1_r1')],
+                  'final': 'cs_final_opt_clear', 'covers': [13]},
+    'opt_store': {'name': 'opt_store', 'setup': 'cs_setup_opt', 'threads': [(W0, 'cs_w_optstore_none'), (W0, 'cs_w_optswap1_r1')],
+                  'final': 'cs_final_opt_store', 'covers': [13]},
     # --- two containers: writer of B walks the node of a reader of A which is on the fallback path
     'iso_b': {'name': 'iso_b', 'setup': 'cs_setup2', 'threads': [('cs_fill8_t1', 'cs_r_fallback'), (W, 'cs_w_store_b3')],
               'final': 'cs_final2_release', 'covers': [13, 14]},
@@ -193,6 +201,8 @@ def c04(ctx):
     conc_set(ctx, ['swap2'])
     cb_run(ctx, SPECS['swap2'], 2 if ctx.tier == 'quick' else 3)
     cb_run(ctx, SPECS['cas_aba'], 3)
+    # Option container: clearing (swap(None), store(None)) is a write like any other
+    cb_set(ctx, ['opt_take2', 'opt_clear', 'opt_store'], 2 if ctx.tier == 'quick' else 3)
     if ctx.tier != 'quick':
         cb_run(ctx, SPECS['cas3'], 2)
 
